@@ -69,6 +69,9 @@ __data_repo_lookup_entry_and_create(parsec_execution_stream_t *es, data_repo_t *
     e->usagecnt = 0;
     e->retained = 1; /* Until we update the usage limit */
 
+#if defined(PARSEC_VERIF)
+    PARSEC_VERIF_YIELD(PARSEC_VERIF_SITE_DATAREPO);
+#endif
     parsec_hash_table_lock_bucket_handle(&repo->table, key, &kh);
     /* When setting up future reshape promises the creation of repos for successors
      * tasks is advanced. Multiple threads may try to create the repo of the same
@@ -122,6 +125,9 @@ __data_repo_entry_used_once(data_repo_t *repo, parsec_key_t key
         parsec_hash_table_nolock_remove_handle(&repo->table, &kh);
         parsec_hash_table_unlock_bucket_handle(&repo->table, &kh);
 
+#if defined(PARSEC_VERIF)
+        PARSEC_VERIF_EVENT(PARSEC_VERIF_EV_REPO_RECLAIM, e, (intptr_t)repo, (intptr_t)key);
+#endif
         parsec_thread_mempool_free(e->data_repo_mempool_owner, e );
     } else {
         PARSEC_DEBUG_VERBOSE(20, parsec_debug_output, "entry %p/%s of hash table %s has %u/%u usage count and %s retained: not freeing it at %s:%d",
@@ -161,6 +167,9 @@ __data_repo_entry_addto_usage_limit(data_repo_t *repo, parsec_key_t key, uint32_
                              e, repo->table.key_functions.key_print(estr, 64, e->ht_item.key, repo->table.hash_data),tablename, e->usagecnt, e->usagelmt, file, line);
         parsec_hash_table_nolock_remove_handle(&repo->table, &kh);
         parsec_hash_table_unlock_bucket_handle(&repo->table, &kh);
+#if defined(PARSEC_VERIF)
+        PARSEC_VERIF_EVENT(PARSEC_VERIF_EV_REPO_RECLAIM, e, (intptr_t)repo, (intptr_t)key);
+#endif
         parsec_thread_mempool_free(e->data_repo_mempool_owner, e );
     } else {
         PARSEC_DEBUG_VERBOSE(20, parsec_debug_output,
